@@ -18,23 +18,16 @@ RULE = ("histories over one string node: constructor (new_string_len / strlen-ba
 NONTRIVIAL_MIN_TAGS = 3
 ASSUMPTIONS = ["the source buffer of a set/new call is a caller object disjoint from the node (no self-aliasing set)",
                "malloc results other than the injected failure: fresh, disjoint blocks",
-               "lengths above 4096 are covered by the theorems only (the > INT_MAX constructor defect is reproduced by hand, "
-               "see DEFECTS; the correspondence run does not allocate 2 GiB strings)",
+               "served lengths above 4096 are covered by the theorems only; the INT_MAX-1 / INT_MAX / negative length guards of both "
+               "constructors are exercised on the refusal path with claimed sizes (newn / setn)",
                "the serializer is observed through the inverse of json_escape_str in the harness (escaping itself is C02)"]
 TRUSTED = ["glibc memcpy/memcmp/strlen/malloc/free", "ld --wrap allocator interposition in harness/str.c"]
 
-DEFECTS = [
-    dict(tag="str.len.int-truncation",
-         input="json_object_new_string(s) with strlen(s) = 2147483648 (2^31 bytes of 'A'); also strlen(s) = 4294967301 (2^32+5)",
-         observed="json_object_get_string_len() = -2147483648 and json_object_deep_copy() fails with -1; for 2^32+5 bytes "
-                  "get_string_len() = 5 and deep copy returns rc 0 with a 5-byte string that is not equal to the original "
-                  "(reproduced against the plain library with a 12-line C program: s = malloc(n+1); memset(s,'A',n); s[n]=0; "
-                  "o = json_object_new_string(s); json_object_get_string_len(o); json_object_deep_copy(o,&c,NULL); "
-                  "json_object_get_string_len(c); json_object_equal(o,c))",
-         expected="the constructor refuses (NULL) what json_object_get_string_len cannot report, as _json_object_set_string_len "
-                  "already does (len >= INT_MAX - 1 is refused there)",
-         suggested_fix="in _json_object_new_string: `if (len >= INT_MAX - 1) return NULL;` (or `len > INT_MAX`) before the size computation"),
-]
+# str.len.int-truncation (json_object_new_string accepted strings longer than json_object_get_string_len can report:
+# 2^31 bytes -> length -2147483648, deep copy fails; 2^32+5 bytes -> length 5, deep copy silently truncated) was repaired in
+# /repo by `if (len >= INT_MAX - 1) return NULL;` in _json_object_new_string; the model has that guard (constant
+# strNewIntGuardSlack regenerated from the source) and the theorems no longer carry a hypothesis about it.
+DEFECTS = []
 
 MANIFEST = dict(
     text="Lean 4 theorems over a checked-C model of the string node of json_object.c (signed-length inline/pointer union; "
@@ -44,9 +37,9 @@ MANIFEST = dict(
          "not fault (no size_t/ssize_t overflow, inline writes inside the node's allocation, heap writes inside the buffer, no read after "
          "free, no double free), reading returns exactly the last bytes successfully stored with their count and a NUL at [len] "
          "(str_refines), a refused set leaves value and storage untouched (str_fail_intact), and when the history ends in delete every "
-         "malloc has been freed exactly once and nothing was touched after its free (str_no_leak_no_uaf). Proved under the hypothesis that "
-         "lengths handed to the strlen-based constructor fit an int; the counter-example for longer strings is a theorem and a recorded "
-         "defect. Tied to the code by constants regenerated from the headers/sources on every run and by a differential run of model, spec "
+         "malloc has been freed exactly once and nothing was touched after its free (str_no_leak_no_uaf). Both ways of giving a node a value refuse "
+         "len >= INT_MAX-1, so 'every value held is reportable through an int' is part of the representation invariant and all four "
+         "theorems hold at full strength. Tied to the code by constants regenerated from the headers/sources on every run and by a differential run of model, spec "
          "and the ASan/LSan/UBSan-built implementation (allocator interposed: allocation sizes, frees, live blocks, injected malloc failure).",
     note="Trusted: Lean kernel + propext/Classical.choice/Quot.sound; tools/extract; the differential harness and its allocator wrapper; "
          "glibc memcpy/memcmp/strlen; malloc returns fresh disjoint blocks. The model is hand-written: theorems are about the model, the "
@@ -128,9 +121,9 @@ def gen_history(rng, nops):
         elif k < 0.88:
             lines.append(rng.choice(["newfail ", "newzfail "]) + hexs(b))
         elif k < 0.94:
-            n = rng.choice([-1, -2, -INT_MAX - 1, -INT_MAX, 0, 1, 7, 8])
+            n = rng.choice([-1, -2, -INT_MAX - 1, -INT_MAX, INT_MAX, INT_MAX - 1, 0, 1, 7, 8])
             lines.append("newn %d" % n)
-            if n >= 0:
+            if 0 <= n <= 8:
                 cur = b"\0" * n
         else:
             lines.append("get")     # on no node
@@ -218,7 +211,8 @@ def h(n, c):
 
 ALPHABET = ["set -", "set " + h(1, 0x61), "set " + h(7, 0x62), "set " + h(8, 0x63), "set " + h(9, 0x64), "set " + h(17, 0x65),
             "set 6600" + h(6, 0x66), "setz 670067", "setfail " + h(9, 0x68), "setfail " + h(33, 0x69), "setfail " + h(2, 0x6a),
-            "get", "EQ", "EQV", "NEQ", "copy", "copyfail", "ser", "setn -1", "del", "new " + h(3, 0x6b)]
+            "get", "EQ", "EQV", "NEQ", "copy", "copyfail", "ser", "setn -1", "del", "new " + h(3, 0x6b),
+            "newn 2147483646"]
 STARTS = [["new -"], ["new " + h(7, 0x41)], ["new " + h(8, 0x42)], ["new " + h(9, 0x43)], ["new " + h(20, 0x44)],
           ["newz 450045"], ["new " + h(5, 0x46), "set " + h(30, 0x47)], ["new " + h(12, 0x48), "set " + h(40, 0x49), "set " + h(3, 0x4a)]]
 
